@@ -142,7 +142,7 @@ func propC09(c *Ctx) {
 		nr := 1 + c.Rng.Intn(5)
 		nc := 1 + c.Rng.Intn(4)
 		rows := make([][]string, nr)
-		pool := []rune{'a', 'b', '1', ' ', 0xe9, 0x416, 0x4e16, 0xfffe, 0, '\r', '\n', ',', ';', '"', '\''}
+		pool := []rune{'a', 'b', '1', ' ', 0xe9, 0xff, 0x100, 0x101, 0x416, 0x4e16, 0xfffe, 0xfeff, 0, '\r', '\n', ',', ';', '"', '\''}
 		pool = append(pool, cfg.seps...)
 		pool = append(pool, cfg.quotes...)
 		pool = append(pool, cfg.quotes...)
